@@ -170,13 +170,13 @@ peg::parser! {
             }
 
         rule limit_clause() -> Clause
-            = ci("LIMIT") _ n:integer() {
-                Clause::Limit(n.parse::<u32>().unwrap())
+            = ci("LIMIT") _ n:integer() {?
+                n.parse::<u32>().map(Clause::Limit).or(Err("LIMIT within u32 range"))
             }
 
         rule offset_clause() -> Clause
-            = ci("OFFSET") _ n:integer() {
-                Clause::Offset(n.parse::<u32>().unwrap())
+            = ci("OFFSET") _ n:integer() {?
+                n.parse::<u32>().map(Clause::Offset).or(Err("OFFSET within u32 range"))
             }
 
         rule order_clause() -> Clause
